@@ -369,3 +369,164 @@ func storeDirOf(dir string) string { return filepath.Join(dir, "store", "user-0"
 
 func imapcQuote(s string) string          { return imapc.Quote(s) }
 func imapcEvs(r imapc.Result) []imapc.Ev { return imapc.Evs(r) }
+
+var reSize = regexp.MustCompile(`RFC822\.SIZE (\d+)`)
+
+// fullState renders EVERYTHING a client can see: LSUB, and for every listed mailbox UIDVALIDITY, UIDNEXT and every
+// message's UID, flags, RFC822.SIZE and the hash of its exact bytes (BODY[], internal-id header included: within one
+// directory the bytes served for a message never change). bad lists messages that cannot be fetched or whose
+// RFC822.SIZE differs from the length of the bytes served.
+func fullState(p *proc) (string, []string, error) {
+	c, err := p.login()
+	if err != nil {
+		return "", nil, err
+	}
+	defer c.Close()
+	r, err := okCmd(c, `LIST "" "*"`)
+	if err != nil {
+		return "", nil, err
+	}
+	var names []string
+	for _, l := range r.Untagged {
+		if m := reListName.FindStringSubmatch(l.Text); m != nil && !strings.Contains(strings.ToLower(m[2]), `\noselect`) {
+			names = append(names, unquote(m[4]))
+		}
+	}
+	sort.Strings(names)
+	r, err = okCmd(c, `LSUB "" "*"`)
+	if err != nil {
+		return "", nil, err
+	}
+	var subs []string
+	for _, l := range r.Untagged {
+		if m := reListName.FindStringSubmatch(l.Text); m != nil {
+			subs = append(subs, unquote(m[4]))
+		}
+	}
+	sort.Strings(subs)
+	var sb strings.Builder
+	var bad []string
+	fmt.Fprintf(&sb, "LSUB %q\n", subs)
+	for _, name := range names {
+		r, err := okCmd(c, "EXAMINE "+imapc.Quote(name))
+		if err != nil {
+			return "", nil, err
+		}
+		all := r.Text
+		exists := 0
+		for _, l := range r.Untagged {
+			all += "\n" + l.Text
+			if e := imapc.ParseEv(l); e.Kind == "EXISTS" {
+				exists = e.N
+			}
+		}
+		uidv, next := "?", "?"
+		if m := reUIDV.FindStringSubmatch(all); m != nil {
+			uidv = m[1]
+		}
+		if m := reUIDNext.FindStringSubmatch(all); m != nil {
+			next = m[1]
+		}
+		fmt.Fprintf(&sb, "%s v%s n%s:", name, uidv, next)
+		r, ferr := c.Cmd("UID FETCH 1:* (UID FLAGS RFC822.SIZE BODY.PEEK[])")
+		if ferr != nil {
+			return "", nil, ferr
+		}
+		evs := imapc.Evs(r)
+		if r.Status != "OK" {
+			// some listed message cannot be served: find out which
+			bad = append(bad, fmt.Sprintf("%s: FETCH of all messages: %s %s", name, r.Status, r.Text))
+			r2, err := okCmd(c, "UID FETCH 1:* (UID FLAGS RFC822.SIZE)")
+			if err != nil {
+				return "", nil, err
+			}
+			evs = nil
+			for _, e := range imapc.Evs(r2) {
+				if e.Kind != "FETCH" {
+					continue
+				}
+				r3, err := c.Cmd(fmt.Sprintf("UID FETCH %d (BODY.PEEK[])", e.UID))
+				if err != nil {
+					return "", nil, err
+				}
+				if r3.Status != "OK" {
+					bad = append(bad, fmt.Sprintf("%s uid %d: BODY[] %s %s", name, e.UID, r3.Status, r3.Text))
+					e.Lits = [][]byte{[]byte("?unfetchable")}
+				} else {
+					for _, b := range imapc.Evs(r3) {
+						if b.Kind == "FETCH" {
+							e.Lits = b.Lits
+						}
+					}
+				}
+				evs = append(evs, e)
+			}
+		}
+		type row struct {
+			uid  int
+			line string
+		}
+		var rows []row
+		for _, e := range evs {
+			if e.Kind != "FETCH" {
+				continue
+			}
+			size := -1
+			if m := reSize.FindStringSubmatch(e.Raw); m != nil {
+				size, _ = strconv.Atoi(m[1])
+			}
+			sha, n := "-", -1
+			if len(e.Lits) > 0 {
+				lit := e.Lits[len(e.Lits)-1]
+				h := sha256.Sum256(lit)
+				sha, n = hex.EncodeToString(h[:8]), len(lit)
+				if string(lit) != "?unfetchable" && size != n {
+					bad = append(bad, fmt.Sprintf("%s uid %d: RFC822.SIZE %d but BODY[] has %d bytes", name, e.UID, size, n))
+				}
+			} else {
+				bad = append(bad, fmt.Sprintf("%s uid %d: no BODY[]", name, e.UID))
+			}
+			rows = append(rows, row{e.UID, fmt.Sprintf(" %d%v/%d/%s", e.UID, normFlags(e.Flags), size, sha)})
+		}
+		sort.Slice(rows, func(i, j int) bool { return rows[i].uid < rows[j].uid })
+		if len(rows) != exists {
+			bad = append(bad, fmt.Sprintf("%s: EXISTS %d but %d messages fetched", name, exists, len(rows)))
+		}
+		for _, x := range rows {
+			sb.WriteString(x.line)
+		}
+		sb.WriteString("\n")
+		okCmd(c, "CLOSE")
+	}
+	c.Cmd("LOGOUT")
+	return sb.String(), bad, nil
+}
+
+// firstDiff returns the first line in which two rendered states differ.
+func firstDiff(a, b string) string {
+	la, lb := strings.Split(a, "\n"), strings.Split(b, "\n")
+	for i := 0; i < len(la) || i < len(lb); i++ {
+		x, y := "", ""
+		if i < len(la) {
+			x = la[i]
+		}
+		if i < len(lb) {
+			y = lb[i]
+		}
+		if x != y {
+			if len(x) > 600 {
+				x = x[:600] + "..."
+			}
+			if len(y) > 600 {
+				y = y[:600] + "..."
+			}
+			return fmt.Sprintf("before: %q | now: %q", x, y)
+		}
+	}
+	return ""
+}
+
+func litSHAFull(lit []byte) string {
+	h := sha256.Sum256(lit)
+	return hex.EncodeToString(h[:8])
+}
